@@ -28,6 +28,8 @@ def cfgOfArgs (kv : List (String × String)) : Cfg :=
     countMissingOk := boolOf (arg kv "countMissingOk"),
     setErrSingle := boolOf (arg kv "setErrSingle"),
     fltCondDirect := boolOf (arg kv "fltCondDirect"),
+    keyChecked := boolOf (arg kv "keyChecked"),
+    recreateKeepsPointer := boolOf (arg kv "recreateKeepsPointer"),
     saveReleasesImmediate := boolOf (arg kv "saveReleasesImmediate"),
     encoding := if arg kv "encoding" == "typeTagged" then .typeTagged else .gobOmitZero }
 
@@ -223,6 +225,7 @@ def showResp (ck : Clock) (verb : String) : Resp → String
 def tagId : Tag → String
   | .stickyFlags => "sticky-changed-flags"
   | .nanCond => "nan-condition-passes"
+  | .unstorableKey => "unstorable-key-acknowledged"
   | .metaNoCompare => "meta-always-changed"
   | .tsSubSecond => "preepoch-subsecond-accepted"
   | .voidNoClear => "set-void-keeps-value"
@@ -244,7 +247,7 @@ def tagPrio : Tag → Nat
   | .u32delDeadlock => 0 | .u32delNonSlice => 1 | .hiddenSlice => 2 | .voidNoClear => 3 | .sliceMerge => 4
   | .incFailTrace => 5 | .inflightReuse => 6 | .tsSubSecond => 7 | .metaNoCompare => 8 | .setErrDup => 9
   | .arekPrecondition => 10 | .countPrecondition => 11 | .zeroLikeDropped => 12 | .emptyLive => 13 | .resurrected => 0
-  | .stickyFlags => 14 | .nanCond => 4
+  | .stickyFlags => 14 | .nanCond => 4 | .unstorableKey => 0
 
 def pickTag (tags : List Tag) : Option Tag :=
   tags.foldl (fun best t => match best with
@@ -271,6 +274,7 @@ structure DState where
   opNo : Nat := 0
   inCase : Bool := false
   ticker : Bool := false      -- kind p1t: the 1 s write ticker is running
+  longSeen : Bool := false    -- a long key (`x@N`) occurred in this case: replies are compressed again
 
 /-- the write ticker has run: every treasure waiting for the writer is written (its object gets a
     file pointer), exactly what close does to the disk image, without closing -/
@@ -283,9 +287,25 @@ def tick (cfg : Cfg) (s : State) : State :=
         filed := i.filed ++ (i.waiting.filter fun k => (AL.find k i.recs).isSome && !i.filed.contains k),
         waiting := [] } }
 
-/-- keys the file format can hold: not empty, at most 65535 bytes (`x@N` stands for N letters x) -/
-def storable (k : Key) : Bool :=
-  k != "" && !(k.startsWith "x@" && ((k.drop 2).toNat?.getD 0) ≥ 65536)
+/-- keys the file format can hold -/
+def storable (k : Key) : Bool := validKey k
+
+/-- long keys are written `x@N` in the protocol: N times the letter x -/
+def expandLong (s : String) : String :=
+  match s.splitOn "x@" with
+  | [] => s
+  | first :: rest =>
+    rest.foldl (fun acc p =>
+      let ds := p.takeWhile Char.isDigit
+      if ds.isEmpty then acc ++ "x@" ++ p
+      else acc ++ String.mk (List.replicate ds.toNat! 'x') ++ p.drop ds.length) first
+
+def compressLong (s : String) : String :=
+  let flush (acc : String) (run : Nat) : String :=
+    if run ≥ 1000 then acc ++ s!"x@{run}" else acc ++ String.mk (List.replicate run 'x')
+  let r := s.foldl (fun (st : String × Nat) c =>
+    if c == 'x' then (st.1, st.2 + 1) else ((flush st.1 st.2).push c, 0)) ("", 0)
+  flush r.1 r.2
 
 def kindOf (s : String) : Kind := if s.startsWith "mem" then .mem else if s.startsWith "p0" then .p0 else .p1
 
@@ -312,12 +332,12 @@ def stepReq (d : DState) (f : List String) : DState × String :=
     ({ d with s := o.s, ck := ck, lastTag := lastTag, opNo := opNo }, showResp ck verb o.r ++ flag)
 
 
-def stepLine (d : DState) (line : String) : DState × String :=
+def stepLineRaw (d : DState) (line : String) : DState × String :=
   let f := line.splitOn " "
   match f with
   | "case" :: _ :: rest =>
     let kind := (rest.filterMap fun a => match a.splitOn "=" with | ["kind", v] => some (kindOf v) | _ => none).headD .mem
-    ({ d with s := { kind := kind }, ck := {}, lastTag := none, opNo := 0, inCase := true, ticker := rest.contains "kind=p1t" }, line)
+    ({ d with s := { kind := kind }, ck := {}, lastTag := none, opNo := 0, inCase := true, ticker := rest.contains "kind=p1t", longSeen := false }, line)
   | _ =>
     if !d.inCase then (d, "no-case")
     else match f with
@@ -369,6 +389,12 @@ def stepLine (d : DState) (line : String) : DState × String :=
         else (d, "err:FailedPrecondition")
       else stepReq d f
     | _ => stepReq d f
+
+def stepLine (d : DState) (line : String) : DState × String :=
+  if (line.splitOn "x@").length > 1 || d.longSeen then
+    let (d', out) := stepLineRaw { d with longSeen := true } (expandLong line)
+    (d', compressLong out)
+  else stepLineRaw d line
 
 def run (pid : String) (pol : Policy) (args : List String) : IO UInt32 := do
   let kv := parseArgs args
